@@ -5,6 +5,7 @@ import (
 	"database/sql/driver"
 	"encoding/json"
 	"fmt"
+	"io"
 	"strings"
 
 	"github.com/tobgu/qframe"
@@ -27,7 +28,11 @@ type faultCase struct {
 	Cuts  []int  `json:"cuts,omitempty"`  // read fragmentation: chunk boundaries before the fault
 	Short bool   `json:"short,omitempty"` // writer: short write at byte offset At instead of failing call number At
 	Site  string `json:"site,omitempty"`  // driver: prepare query next exec
+	// ErrKind (readers): 0 a plain error, 1 io.ErrUnexpectedEOF, 2 an error that wraps io.EOF (errors.Is(err, io.EOF) holds, err == io.EOF does not)
+	ErrKind int `json:"err_kind,omitempty"`
 }
+
+var c15ReaderErrs = []error{nil, io.ErrUnexpectedEOF, fmt.Errorf("connection reset while reading: %w", io.EOF)}
 
 // faultWriter fails the At-th Write call (call mode) or accepts only the first At bytes in total (short mode).
 type faultWriter struct {
@@ -105,7 +110,7 @@ func runFaultCase(c faultCase) *core.Failure {
 			docs = jsonFaultDocs()
 		}
 		doc := []byte(docs[c.Input])
-		rd := &schedReader{doc: doc, failAt: c.At, failWith: c.With, maxChunk: c.Chunk, cuts: c.Cuts}
+		rd := &schedReader{doc: doc, failAt: c.At, failWith: c.With, maxChunk: c.Chunk, cuts: c.Cuts, failErr: c15ReaderErrs[c.ErrKind%len(c15ReaderErrs)]}
 		var q qframe.QFrame
 		if c.Entry == "ReadCSV" {
 			q = qframe.ReadCSV(rd)
@@ -113,7 +118,7 @@ func runFaultCase(c faultCase) *core.Failure {
 			q = qframe.ReadJSON(rd)
 		}
 		delivered := rd.deliveredFault()
-		what := fmt.Sprintf("%s(%q) with the reader failing at byte %d (%d bytes delivered with the error, chunk %d, cuts %v)", c.Entry, doc, c.At, c.With, c.Chunk, c.Cuts)
+		what := fmt.Sprintf("%s(%q) with the reader failing at byte %d with error kind %d (%d bytes delivered with the error, chunk %d, cuts %v)", c.Entry, doc, c.At, c.ErrKind, c.With, c.Chunk, c.Cuts)
 		if delivered && q.Err == nil {
 			// A JSON document is self-delimiting: when the reader hands over the last bytes of the
 			// complete document together with the error, the decoder never has to read again and no
@@ -247,8 +252,13 @@ func c15Run(ctx *core.Ctx) {
 						continue
 					}
 					for _, ch := range chunks {
-						if ctx.Mine() {
-							exec(faultCase{Entry: entry, Input: di, At: at, With: with, Chunk: ch}, "reader-fault")
+						for ek := range c15ReaderErrs {
+							if ek > 0 && ch > 1 {
+								continue // the other error values: whole reads and byte-wise reads
+							}
+							if ctx.Mine() {
+								exec(faultCase{Entry: entry, Input: di, At: at, With: with, Chunk: ch, ErrKind: ek}, "reader-fault")
+							}
 						}
 					}
 					// one (thorough: two) fragmentation deviations before the fault: every cut position
